@@ -61,7 +61,7 @@ def transforms():
 def oracle_cases(tier, rng):
     names = list(transforms().keys())
     for nm in names:
-        for chk in ('zero', 'super', 'slice'):
+        for chk in ('zero', 'super', 'slice', 'slice_sparse'):
             for rep in range(2 if tier == 'quick' else 5):
                 H, W = [(16, 24), (13, 18), (20, 16), (32, 32), (9, 28)][rep % 5]
                 if nm.startswith(('dtcwt', 'idtcwt', 'swt')):
@@ -92,6 +92,11 @@ def oracle_run(cfg):
                 if not ok:
                     return dict(detail='superposition fails: ' + msg)
             return None
+        if cfg['check'] == 'slice_sparse':
+            # one slice identically zero, the others not: no slice may be treated on the evidence of another
+            if shp[0] * shp[1] < 2:
+                shp = (2, 2) + tuple(shp[2:]); x = torch.tensor(r.standard_normal(shp))
+            x[0, 0] = 0.0
         full = f(x)
         for n in range(shp[0]):
             for c in range(shp[1]):
